@@ -139,7 +139,7 @@ Record mtx := mkMtx { m_st : Z; m_q : list waiter }.
 Definition mtx0 : mtx := mkMtx 0 [].
 
 Definition NF : Z := 8.   Definition NM : Z := 4.   Definition NG : Z := 4.
-Definition NS : Z := 4.   Definition NH : Z := 6.   Definition NC : Z := 32.
+Definition NS : Z := 4.   Definition NH : Z := 6.   Definition NC : Z := 32.   Definition NK : Z := 4.
 
 Record state := mkSt {
   futs : list fut;
@@ -150,32 +150,35 @@ Record state := mkSt {
   dq : deque;                     (* ... and its allocation cursor *)
   hbusy : list bool;              (* helper thread blocked in wait() *)
   cbusy : list bool;              (* callback awaiter subscribed *)
-  live : Z                        (* live coroutine frames *)
+  live : Z;                       (* live coroutine frames *)
+  cfs : list (Z * Z)              (* call_fn_future_awaiter objects of the program: (operation pending, reads its handler still starts) *)
 }.
 
 Definition st0 : state :=
   mkSt (repeat fut0 (n NF)) (repeat mtx0 (n NM)) (repeat None (n NG)) (repeat sp_empty (n NS)) [] dq0
-       (repeat false (n NH)) (repeat false (n NC)) 0.
+       (repeat false (n NH)) (repeat false (n NC)) 0 (repeat (0, 0) (n NK)).
 
 Definition getf (st : state) (f : Z) : fut := nth (n f) (futs st) fut0.
 Definition getm (st : state) (m : Z) : mtx := nth (n m) (mtxs st) mtx0.
 Definition gets (st : state) (s : Z) : spt := nth (n s) (slots st) sp_empty.
 Definition setf (st : state) (f : Z) (x : fut) : state :=
-  mkSt (upd (futs st) f x) (mtxs st) (gens st) (slots st) (rq st) (dq st) (hbusy st) (cbusy st) (live st).
+  mkSt (upd (futs st) f x) (mtxs st) (gens st) (slots st) (rq st) (dq st) (hbusy st) (cbusy st) (live st) (cfs st).
 Definition setm (st : state) (m : Z) (x : mtx) : state :=
-  mkSt (futs st) (upd (mtxs st) m x) (gens st) (slots st) (rq st) (dq st) (hbusy st) (cbusy st) (live st).
+  mkSt (futs st) (upd (mtxs st) m x) (gens st) (slots st) (rq st) (dq st) (hbusy st) (cbusy st) (live st) (cfs st).
 Definition setg (st : state) (g : Z) (x : option (Z * Z * Z)) : state :=
-  mkSt (futs st) (mtxs st) (upd (gens st) g x) (slots st) (rq st) (dq st) (hbusy st) (cbusy st) (live st).
+  mkSt (futs st) (mtxs st) (upd (gens st) g x) (slots st) (rq st) (dq st) (hbusy st) (cbusy st) (live st) (cfs st).
 Definition sets (st : state) (s : Z) (x : spt) : state :=
-  mkSt (futs st) (mtxs st) (gens st) (upd (slots st) s x) (rq st) (dq st) (hbusy st) (cbusy st) (live st).
+  mkSt (futs st) (mtxs st) (gens st) (upd (slots st) s x) (rq st) (dq st) (hbusy st) (cbusy st) (live st) (cfs st).
 Definition setq (st : state) (q : list item) (d : deque) : state :=
-  mkSt (futs st) (mtxs st) (gens st) (slots st) q d (hbusy st) (cbusy st) (live st).
+  mkSt (futs st) (mtxs st) (gens st) (slots st) q d (hbusy st) (cbusy st) (live st) (cfs st).
 Definition seth (st : state) (t : Z) (b : bool) : state :=
-  mkSt (futs st) (mtxs st) (gens st) (slots st) (rq st) (dq st) (upd (hbusy st) t b) (cbusy st) (live st).
+  mkSt (futs st) (mtxs st) (gens st) (slots st) (rq st) (dq st) (upd (hbusy st) t b) (cbusy st) (live st) (cfs st).
 Definition setc (st : state) (c : Z) (b : bool) : state :=
-  mkSt (futs st) (mtxs st) (gens st) (slots st) (rq st) (dq st) (hbusy st) (upd (cbusy st) c b) (live st).
+  mkSt (futs st) (mtxs st) (gens st) (slots st) (rq st) (dq st) (hbusy st) (upd (cbusy st) c b) (live st) (cfs st).
+Definition setk (st : state) (k : Z) (x : Z * Z) : state :=
+  mkSt (futs st) (mtxs st) (gens st) (slots st) (rq st) (dq st) (hbusy st) (cbusy st) (live st) (upd (cfs st) k x).
 Definition addlive (st : state) (k : Z) : state :=
-  mkSt (futs st) (mtxs st) (gens st) (slots st) (rq st) (dq st) (hbusy st) (cbusy st) (live st + k).
+  mkSt (futs st) (mtxs st) (gens st) (slots st) (rq st) (dq st) (hbusy st) (cbusy st) (live st + k) (cfs st).
 
 (* mark a waiter that leaves a chain / queue *)
 Definition release_waiter (st : state) (w : waiter) : state :=
@@ -282,7 +285,8 @@ Inductive op :=
 | FResolve (f kind how s v : Z) | FDestroy (f : Z)
 | MTry (m : Z) | MLockCoro (m w mode : Z) | MLockSync (m t : Z) | MLockCb (m c : Z) | MUnlock (m how s : Z)
 | GNew (g k a : Z) | GNext (g how arg : Z) | GDestroy (g : Z)
-| SpFlush (s how : Z) | Pause | PMove (f : Z) | OBad.
+| SpFlush (s how : Z) | Pause | PMove (f : Z)
+| CfStart (k mode v r : Z) | CfResolve (k kind v : Z) | OBad.
 
 Record obs := mkObs { o_st : Z; o_res : Z; o_sps : Z; o_cfr : cost; o_csp : cost; o_cdq : cost; o_ev : list event }.
 Definition rejected : obs := mkObs 1 0 0 c0 c0 c0 [].
@@ -308,11 +312,16 @@ Definition after_start (coro : bool) (mode : Z) (st : state) (ev0 : list event) 
 Definition defer_start (st : state) (it : item) : state * cost :=
   let '(d1, c) := dq_push (dq st) in (addlive (setq st (rq st ++ [it]) d1) 1, c).
 
+(* the reads a handler starts itself: each completes synchronously with the next value *)
+Fixpoint rearm_events (k v : Z) (r : nat) : list event :=
+  match r with O => [] | S j => (3000 + k, 0, v + 1) :: rearm_events k (v + 1) j end.
+
 Definition step (coro heap : bool) (st : state) (x : op) : state * obs :=
   match x with
   | FNew f ty =>
-      (* ty: 0 int, 1 void, 2 int& (future<int&>), 3 a move-only struct holding an int *)
-      if inr f NF && inr ty 4 && (f_st (getf st f) =? 0)
+      (* ty: 0 int, 1 void, 2 int& (future<int&>), 3 a move-only struct holding an int,
+         4 / 5 a trivially copyable struct of 264 / 1024 bytes (no allocation of its own) *)
+      if inr f NF && inr ty 6 && (f_st (getf st f) =? 0)
       then (setf st f (mkFut 1 ty 0 0 []), mkObs 0 0 0 c0 c0 c0 [])
       else (st, rejected)
   | FGetP f =>
@@ -459,6 +468,21 @@ Definition step (coro heap : bool) (st : state) (x : op) : state * obs :=
         let '(st1, ev, c, k) := suspend_drain st [] [] in
         (st1, mkObs 0 0 0 (frames_freed heap k) c0 c ev)
       else (st, rejected)
+  | CfStart k mode v r =>
+      (* call_fn_future_awaiter (future.h:1023): `awt << [&]{ return <operation>; }`.  mode 0/1/2: the operation completed
+         synchronously (future already resolved with a value / an exception / no value when the awaiter subscribes):
+         the handler (a member function) is called at once; mode 3: the operation is pending.  The handler reports what
+         it got and then starts r more reads from a source that completes synchronously (re-arm from inside the
+         handler, as such consumers do).  No coroutine, no frame, no memory anywhere on these paths. *)
+      if inr k NK && inr mode 4 && inr r 6 && (fst (nth (n k) (cfs st) (1, 0)) =? 0) then
+        if mode =? 3 then (setk st k (1, r), mkObs 0 0 0 c0 c0 c0 [])
+        else (st, mkObs 0 0 0 c0 c0 c0 ((3000 + k, mode, if mode =? 0 then v else 0) :: rearm_events k v (n r)))
+      else (st, rejected)
+  | CfResolve k kind v =>
+      if inr k NK && inr kind 3 && (fst (nth (n k) (cfs st) (0, 0)) =? 1) then
+        (setk st k (0, 0),
+         mkObs 0 1 0 c0 c0 c0 ((3000 + k, kind, if kind =? 0 then v else 0) :: rearm_events k v (Z.to_nat (snd (nth (n k) (cfs st) (0, 0))))))
+      else (st, rejected)
   | OBad => (st, rejected)
   end.
 
@@ -490,6 +514,8 @@ Definition decode (l : list Z) : op :=
   | [22; g] => GDestroy g
   | [30; s; how] => SpFlush s how
   | [31] => Pause
+  | [40; k; mode; v; r] => CfStart k mode v r
+  | [41; k; kind; v] => CfResolve k kind v
   | _ => OBad
   end.
 
@@ -502,6 +528,7 @@ Definition encode_op (x : op) : list Z :=
   | MLockCb m c => [13; m; c] | MUnlock m how s => [14; m; how; s]
   | GNew g k a => [20; g; k; a] | GNext g how arg => [21; g; how; arg] | GDestroy g => [22; g]
   | SpFlush s how => [30; s; how] | Pause => [31] | OBad => [0]
+  | CfStart k mode v r => [40; k; mode; v; r] | CfResolve k kind v => [41; k; kind; v]
   end.
 
 Fixpoint flat_ev (l : list event) : list Z :=
@@ -596,14 +623,22 @@ Definition al_witness_oracle (_ _ : list (list Z)) : bool := true.
 (* ---------- cross-check of the controlled-schedule harnesses of C01/C02 (ctl_cell.cpp) and C07/C08 (ctl_mutex.cpp):
    the number of operator new calls made by the scenario threads must be the number of coroutine frames the scenario
    creates (+ one node per callback waiter, which that harness allocates itself), whatever the schedule ---------- *)
-Definition cell_decl_allocs (l : list Z) : Z :=
-  match l with
-  | [1; k; d] => if (k =? 4) || (k =? 5) then 1 else 0          (* resolver that is an async coroutine *)
-  | [2; k] => if (k =? 0) || (k =? 4) || (k =? 2) then 1 else 0  (* coroutine waiters; callback waiter's CbCtx *)
-  | _ => 0
+(* thread kinds of ctl_cell.cpp: resolver 1 k d: k 4/5 an async coroutine (one frame), 7 a coroutine doing
+   `co_await promise(d)` (one frame), 0..3 and 6 no coroutine; waiter 2 k: k 0/4 a coroutine (one frame), 2 a callback
+   awaiter (that harness allocates its CbCtx node), 5 call_fn_future_awaiter: the FIRST such waiter owns the future as
+   its internal future and allocates nothing — the library must not create anything for it —, further ones are plain
+   callback awaiters (CbCtx node); 1/3 blocking threads (nothing).  Kinds outside these lists are never sent here. *)
+Fixpoint cell_allocs (seen_callfn : bool) (ops : list (list Z)) : Z :=
+  match ops with
+  | [] => 0
+  | [1; k; d] :: t => (if (k =? 4) || (k =? 5) || (k =? 7) then 1 else 0) + cell_allocs seen_callfn t
+  | [2; k] :: t =>
+      if k =? 5 then (if seen_callfn then 1 else 0) + cell_allocs true t
+      else (if (k =? 0) || (k =? 4) || (k =? 2) then 1 else 0) + cell_allocs seen_callfn t
+  | _ :: t => cell_allocs seen_callfn t
   end.
 Fixpoint sumz (l : list Z) : Z := match l with [] => 0 | x :: t => x + sumz t end.
-Definition alx_cell_run (ops : list (list Z)) : list (list Z) := [[20; sumz (map cell_decl_allocs ops)]].
+Definition alx_cell_run (ops : list (list Z)) : list (list Z) := [[20; cell_allocs false ops]].
 
 Fixpoint rounds_ok (l : list Z) : bool :=
   match l with
@@ -620,6 +655,6 @@ Definition alx_mutex_run (ops : list (list Z)) : list (list Z) := [[20; sumz (ma
 (* the cross-check property itself: observed operator new calls of the scenario = frames it creates
    (no line at all = the schedule deadlocked and the process was restarted: judged by C02/C07, not here) *)
 Definition alx_cell_oracle (ops obs : list (list Z)) : bool :=
-  match obs with [[20; k]] => k =? sumz (map cell_decl_allocs ops) | [] => true | _ => false end.
+  match obs with [[20; k]] => k =? cell_allocs false ops | [] => true | _ => false end.
 Definition alx_mutex_oracle (ops obs : list (list Z)) : bool :=
   match obs with [[20; k]] => k =? sumz (map mutex_decl_allocs ops) | [] => true | _ => false end.
